@@ -80,22 +80,37 @@ def unit_saver(twin=False):
             r.add("%s.block_present" % K, FAILED, "syntactic", 0, "%d blocks" % len(ifs)); continue
         blk = ifs[0]["inner"][1]
         stmts = [text_of(MS, x) for x in blk.get("inner", [])]
-        n_ok = "n=save.n_%s_user" % K in stmts
-        save_ok = "%s(n)" % short[K] in stmts and n_ok and stmts.index("n=save.n_%s_user" % K) < stmts.index("%s(n)" % short[K])
-        r.add("%s.state_saved_under_first_number" % K, DISCHARGED if save_ok else FAILED, "syntactic", 0, repr(stmts)[:300])
+        import re as _re
+        first = "save.n_%s_user" % K
+        # locals that hold the first number
+        alias = {first}
+        for t in stmts:
+            mm = _re.match(r"^(\w+)=" + _re.escape(first) + "$", t)
+            if mm:
+                alias.add(mm.group(1))
+        calls = [(_re.match(r"^%s\((.+)\)$" % short[K], t), k) for k, t in enumerate(stmts)]
+        calls = [(mm.group(1), k) for mm, k in calls if mm]
+        if len(calls) != 1:
+            r.add("%s.state_saved_once" % K, FAILED, "syntactic", 0, repr(stmts)[:300]); continue
+        r.add("%s.state_saved_under_first_number" % K, DISCHARGED if calls[0][0] in alias else FAILED, "syntactic", 0, "%s(%s)" % (short[K], calls[0][0]))
         m = "Rxn_%s_map" % K
         end = "save.n_%s_user_end" % K if not twin else "save.n_%s_user" % K
-        via_copies = [t for t in stmts if t.startswith("Utilities::Rxn_copies(")]
+        via_copies = [_re.match(r"^Utilities::Rxn_copies\((\w+),(.+),(.+)\)$", t) for t in stmts]
+        via_copies = [mm.groups() for mm in via_copies if mm]
         loops = [x for x in blk.get("inner", []) if x.get("kind") == "ForStmt"]
-        if via_copies:
-            ok = via_copies == ["Utilities::Rxn_copies(%s,n,%s)" % (m, end)] or via_copies == ["Utilities::Rxn_copies(%s,save.n_%s_user,%s)" % (m, K, end)]
-            r.add("%s.rest_of_range_copied(Rxn_copies first..end)" % K, DISCHARGED if ok and not loops else FAILED, "syntactic", 0, repr(via_copies))
-        elif len(loops) == 1:
+        if via_copies and not loops:
+            ok = len(via_copies) == 1 and via_copies[0][0] == m and via_copies[0][1] in alias and via_copies[0][2] == end
+            r.add("%s.rest_of_range_copied(Rxn_copies first..end)" % K, DISCHARGED if ok else FAILED, "syntactic", 0, repr(via_copies))
+        elif len(loops) == 1 and not via_copies:
             lp = loops[0]
-            head = (text_of(MS, lp["inner"][0]), text_of(MS, lp["inner"][2]), text_of(MS, lp["inner"][3]))
-            bodyt = text_of(MS, lp["inner"][-1]).strip("{};")
-            ok = head == ("i=save.n_%s_user+1" % K, "i<=%s" % end, "i++") and bodyt == "Utilities::Rxn_copy(%s,n,i)" % m
-            r.add("%s.rest_of_range_copied(loop first+1..end)" % K, DISCHARGED if ok else FAILED, "syntactic", 0, "%r %s" % (head, bodyt))
+            hi = _re.match(r"^(\w+)=(.+)\+1$", text_of(MS, lp["inner"][0]) or "")
+            hc = _re.match(r"^(\w+)<=(.+)$", text_of(MS, lp["inner"][2]) or "")
+            hb = _re.match(r"^Utilities::Rxn_copy\((\w+),(.+),(\w+)\)$", text_of(MS, lp["inner"][-1]).strip("{};"))
+            inc = text_of(MS, lp["inner"][3]) or ""
+            if not (hi and hc and hb and inc in (hi.group(1) + "++", "++" + hi.group(1))):
+                r.add("%s.copy_loop_recognised" % K, UNDECIDED, "syntactic", 0, "loop shape not recognised: %s" % text_of(MS, lp)[:160]); continue
+            ok = hi.group(2) in alias and hc.group(1) == hi.group(1) and hc.group(2) == end and hb.group(1) == m and hb.group(2) in alias and hb.group(3) == hi.group(1)
+            r.add("%s.rest_of_range_copied(loop first+1..end)" % K, DISCHARGED if ok else FAILED, "syntactic", 0, text_of(MS, lp)[:200])
         else:
             r.add("%s.rest_of_range_copied" % K, FAILED, "syntactic", 0, repr(stmts)[:300])
         others = [t for t in stmts if "Rxn_" in t and m not in t]
